@@ -35,7 +35,7 @@ ASSUMPTIONS = [
     "tolerance 1e-9 on gamma / pmf comparisons",
 ]
 
-CELLS = ["a", "b", ",", "\\", "", " ", "1", "1.0", "01", "a,b", "a\\", ",b", "\\,", "a,", "b\\\\", ",,", "a\\,b"]
+CELLS = ["a", "b", ",", "\\", "", " ", "None", "1", "1.0", "01", "a,b", "a\\", ",b", "\\,", "a,", "b\\\\", ",,", "a\\,b"]
 CHARS = ["a", ",", "\\", " ", "1", ".", "0", "b", "c"]
 
 
@@ -58,7 +58,7 @@ def _wrap_table(kind, table, names=None):
         arr = np.empty((len(table), ncol), dtype=object)
         for i, row in enumerate(table):
             for j, c in enumerate(row):
-                arr[i, j] = int(c) if (c.isdigit() and (c == "0" or not c.startswith("0"))) else c
+                arr[i, j] = None if c == "None" else int(c) if (c.isdigit() and (c == "0" or not c.startswith("0"))) else c
         return arr
     if kind in ("ndarray_int", "dataframe_int", "listoflists_int"):
         # integer-coded columns (e.g. -1 = unknown) handed over as integers
